@@ -137,6 +137,26 @@ Proof.
   - apply s_burn_inv.
 Qed.
 
+Lemma s_send_coins_inv cs : forall s a c s', s_send_coins s a c cs = Some s' -> SInv s -> SInv s'.
+Proof.
+  induction cs as [|[d x] r IH]; intros s a c s' H' I; cbn [s_send_coins] in H'.
+  - inversion H'; subst; exact I.
+  - apply bind_Some in H' as (s1 & H1 & H2). eapply IH; [exact H2|]. eapply s_send_inv; eauto.
+Qed.
+Lemma s_burn_coins_inv cs : forall s m s', s_burn_coins s m cs = Some s' -> SInv s -> SInv s'.
+Proof.
+  induction cs as [|[d x] r IH]; intros s m s' H' I; cbn [s_burn_coins] in H'.
+  - inversion H'; subst; exact I.
+  - apply bind_Some in H' as (s1 & H1 & H2). eapply IH; [exact H2|]. eapply s_burn_inv; eauto.
+Qed.
+Lemma haqq_burn_coins_inv s m cs s' : haqq_burn_coins s m cs = Some s' -> SInv s -> SInv s'.
+Proof.
+  unfold haqq_burn_coins. destruct (valid_coins cs); [|discriminate]. cbn [negb]. destruct (redirected m).
+  - intros H' I. apply bind_Some in H' as (s1 & H1 & E). inversion E; subst s'.
+    apply (s_send_coins_inv _ _ _ _ _ H1) in I. exact I.
+  - apply s_burn_coins_inv.
+Qed.
+
 Ltac step_inv :=
   repeat match goal with
   | H : (_ ≫= _) = Some _ |- _ => apply bind_Some in H as (? & ? & H)
@@ -144,6 +164,7 @@ Ltac step_inv :=
   | H : s_mint ?s _ _ _ = Some _, I : SInv ?s |- _ => apply (s_mint_inv _ _ _ _ _ H) in I; clear H
   | H : s_burn ?s _ _ _ = Some _, I : SInv ?s |- _ => apply (s_burn_inv _ _ _ _ _ H) in I; clear H
   | H : haqq_burn ?s _ _ _ = Some _, I : SInv ?s |- _ => apply (haqq_burn_inv _ _ _ _ _ H) in I; clear H
+  | H : haqq_burn_coins ?s _ _ = Some _, I : SInv ?s |- _ => apply (haqq_burn_coins_inv _ _ _ _ H) in I; clear H
   | H : Some _ = Some _ |- _ => inversion H; subst; clear H
   end.
 
@@ -151,6 +172,7 @@ Ltac step_inv :=
 Lemma hstep_inv s o s' : hstep s o = Some s' -> SInv s -> SInv s'.
 Proof.
   destruct o; cbn [hstep]; intros H' I.
+  - step_inv; exact I.
   - step_inv; exact I.
   - step_inv; exact I.
   - step_inv; exact I.
@@ -214,6 +236,140 @@ Proof.
     rewrite (decide_False (P := m = 101%N /\ d = d')) by (intros [_ ?]; done). lia.
 Qed.
 
+(** ** the same for a coin LIST (a governance deposit in several denominations) *)
+Lemma nodupb_NoDup l : nodupb l = true -> NoDup l.
+Proof.
+  induction l as [|a l IH]; cbn; [constructor|]. intros H'. apply andb_prop in H' as [H1 H2].
+  apply NoDup_cons. split; [|auto]. intros Hin. apply negb_true_iff in H1.
+  assert (existsb (N.eqb a) l = true) as E; [|congruence].
+  apply existsb_exists. exists a. split; [by apply elem_of_list_In|apply N.eqb_refl].
+Qed.
+
+Lemma valid_coins_spec cs : valid_coins cs = true ->
+  NoDup (map fst cs) /\ forall d x, In (d, x) cs -> 0 < x.
+Proof.
+  unfold valid_coins. intros H'. apply andb_prop in H' as [H1 H2]. split; [by apply nodupb_NoDup|].
+  intros d x Hin. rewrite forallb_forall in H1. specialize (H1 _ Hin). cbn in H1. lia.
+Qed.
+
+Lemma amount_of_nil d : amount_of [] d = 0.
+Proof. reflexivity. Qed.
+Lemma amount_of_cons d x r d' : amount_of ((d, x) :: r) d' = (if decide (d = d') then x else 0) + amount_of r d'.
+Proof. reflexivity. Qed.
+Global Arguments amount_of : simpl never.
+
+Lemma amount_of_notin cs d : ~ In d (map fst cs) -> amount_of cs d = 0.
+Proof.
+  induction cs as [|[d0 x0] r IH]; intros Hn; [apply amount_of_nil|]. rewrite amount_of_cons. cbn in Hn.
+  rewrite decide_False by (intros ->; apply Hn; by left). rewrite IH; [lia|]. intros ?; apply Hn; by right.
+Qed.
+
+(** with no denomination twice, AmountOf is the amount written in the list *)
+Lemma amount_of_in cs d x : NoDup (map fst cs) -> In (d, x) cs -> amount_of cs d = x.
+Proof.
+  induction cs as [|[d0 x0] r IH]; intros Hnd Hin; [destruct Hin|]. cbn [map fst] in Hnd.
+  apply NoDup_cons in Hnd as [Hn Hnd]. rewrite amount_of_cons. destruct Hin as [E|Hin].
+  - inversion E; subst. rewrite decide_True by done. rewrite amount_of_notin; [lia|].
+    intros Hin. apply Hn. by apply elem_of_list_In.
+  - rewrite decide_False.
+    + rewrite (IH Hnd Hin). lia.
+    + intros ->. apply Hn. apply elem_of_list_In. apply (in_map fst _ _ Hin).
+Qed.
+
+Lemma pool_add_spec cs : forall p d, zget (pool_add p cs) d = zget p d + amount_of cs d.
+Proof.
+  induction cs as [|[d0 x0] r IH]; intros p d; [rewrite amount_of_nil; cbn; lia|]. rewrite amount_of_cons.
+  unfold pool_add in *. cbn [fold_left fst snd]. rewrite IH, zget_zset. destruct (decide (d0 = d)) as [->|]; lia.
+Qed.
+
+(** sending a coin list between two different accounts: per denomination exactly AmountOf moves,
+    every written amount is non-negative and (no denomination twice) covered by the sender *)
+Lemma s_send_coins_spec cs : forall s a c s', a <> c -> s_send_coins s a c cs = Some s' ->
+  pool s' = pool s /\ outst s' = outst s /\ sup (bk s') = sup (bk s) /\
+  (forall a' d', balance (bk s') a' d' = balance (bk s) a' d'
+      - (if decide (a = a') then amount_of cs d' else 0) + (if decide (c = a') then amount_of cs d' else 0)) /\
+  (forall d x, In (d, x) cs -> 0 <= x) /\
+  (NoDup (map fst cs) -> forall d x, In (d, x) cs -> x <= balance (bk s) a d).
+Proof.
+  induction cs as [|[d x] r IH]; intros s a c s' Hac H'; cbn [s_send_coins] in H'.
+  - inversion H'; subst s'. split; [done|]. split; [done|]. split; [done|]. split; [|split].
+    + intros a' d'. rewrite amount_of_nil. destruct (decide (a = a')), (decide (c = a')); lia.
+    + intros ? ? [].
+    + intros _ ? ? [].
+  - apply bind_Some in H' as (s1 & H1 & H2). destruct (IH _ _ _ _ Hac H2) as (Hp & Ho & Hs & Hb & Hx & Hle).
+    pose proof (s_send_frame _ _ _ _ _ _ H1) as [Hp1 Ho1]. unfold s_send in H1.
+    apply bind_Some in H1 as (b & Hb1 & E). inversion E; subst s1; clear E. cbn in *.
+    destruct (send_spec _ _ _ _ _ _ Hb1) as (Hx1 & Hle1 & Hs1 & Hbal1).
+    split; [congruence|]. split; [congruence|]. split; [congruence|]. split; [|split].
+    + intros a' d'. rewrite Hb, Hbal1, amount_of_cons.
+      destruct (decide (d = d')) as [->|Hd]; destruct (decide (a = a')) as [->|Ha]; destruct (decide (c = a')) as [->|Hc];
+        repeat (first [rewrite decide_True by done | rewrite decide_False by (intros [? ?]; done)]); try lia; done.
+    + intros d0 x0 [E|Hin]; [inversion E; subst; lia|eauto].
+    + intros Hnd d0 x0 [E|Hin]; [inversion E; subst; exact Hle1|].
+      apply NoDup_cons in Hnd as [Hn Hnd]. specialize (Hle Hnd _ _ Hin). rewrite Hbal1 in Hle.
+      assert (d <> d0) as Hd by (intros ->; apply Hn; apply elem_of_list_In; apply (in_map fst _ _ Hin)).
+      rewrite (decide_False (P := a = a /\ d = d0)) in Hle by (intros [_ ?]; done).
+      rewrite (decide_False (P := c = a /\ d = d0)) in Hle by (intros [_ ?]; done). lia.
+Qed.
+
+(** exact effect of the redirected burn of a coin list: supply untouched; in EVERY denomination the
+    module pays AmountOf, the distribution account and the community pool receive AmountOf *)
+Theorem redirect_coins_exact s m cs s' : redirected m = true -> m <> M_DISTR -> haqq_burn_coins s m cs = Some s' ->
+  sup (bk s') = sup (bk s) /\
+  (forall d', zget (pool s') d' = zget (pool s) d' + amount_of cs d') /\
+  outst s' = outst s /\
+  (forall a' d', balance (bk s') a' d' = balance (bk s) a' d'
+      - (if decide (m = a') then amount_of cs d' else 0) + (if decide (M_DISTR = a') then amount_of cs d' else 0)) /\
+  NoDup (map fst cs) /\
+  (forall d x, In (d, x) cs -> amount_of cs d = x /\ 0 < x <= balance (bk s) m d).
+Proof.
+  unfold haqq_burn_coins. intros -> Hm H'. destruct (valid_coins cs) eqn:Hv; [|discriminate]. cbn [negb] in H'.
+  apply valid_coins_spec in Hv as [Hnd Hpos].
+  apply bind_Some in H' as (s1 & H1 & E). inversion E; subst s'; clear E. cbn.
+  destruct (s_send_coins_spec _ _ _ _ _ Hm H1) as (Hp & Ho & Hs & Hb & _ & Hle).
+  split; [done|]. split; [|split; [done|split; [exact Hb|split; [exact Hnd|]]]].
+  - intros d'. rewrite pool_add_spec, Hp. done.
+  - intros d x Hin. split; [by apply amount_of_in|]. split; [eauto|]. by apply Hle.
+Qed.
+
+Theorem redirect_coins_preserves_distr_account_inv s m cs s' :
+  redirected m = true -> haqq_burn_coins s m cs = Some s' -> DistrInv s -> DistrInv s'.
+Proof.
+  intros Hr H' I d'.
+  assert (Hm : m <> M_DISTR) by (intros ->; vm_compute in Hr; discriminate).
+  destruct (redirect_coins_exact _ _ _ _ Hr Hm H') as (_ & Hp & Ho & Hb & _).
+  rewrite Hp, Ho, Hb. specialize (I d').
+  rewrite (decide_False (P := m = M_DISTR)) by done. rewrite (decide_True (P := M_DISTR = M_DISTR)) by done. lia.
+Qed.
+
+(** a coin list burnt from any other module: the supply of every denomination shrinks by AmountOf *)
+Lemma s_burn_coins_spec cs : forall s m s', s_burn_coins s m cs = Some s' ->
+  pool s' = pool s /\ outst s' = outst s /\
+  (forall d', zget (sup (bk s')) d' = zget (sup (bk s)) d' - amount_of cs d') /\
+  (forall a' d', balance (bk s') a' d' = balance (bk s) a' d' - (if decide (m = a') then amount_of cs d' else 0)).
+Proof.
+  induction cs as [|[d x] r IH]; intros s m s' H'; cbn [s_burn_coins] in H'.
+  - inversion H'; subst s'. split; [done|]. split; [done|]. split.
+    + intros d'. rewrite amount_of_nil. lia.
+    + intros a' d'. rewrite amount_of_nil. destruct (decide (m = a')); lia.
+  - apply bind_Some in H' as (s1 & H1 & H2). destruct (IH _ _ _ H2) as (Hp & Ho & Hs & Hb).
+    unfold s_burn in H1. apply bind_Some in H1 as (b & Hb1 & E). inversion E; subst s1; clear E. cbn in *.
+    destruct (burn_spec _ _ _ _ _ Hb1) as (_ & _ & Hs1 & Hbal1).
+    split; [done|]. split; [done|]. split.
+    + intros d'. rewrite Hs, Hs1, amount_of_cons. lia.
+    + intros a' d'. rewrite Hb, Hbal1, amount_of_cons.
+      destruct (decide (d = d')) as [->|Hd]; destruct (decide (m = a')) as [->|Ha];
+        repeat (first [rewrite decide_True by done | rewrite decide_False by (intros [? ?]; done)]); lia.
+Qed.
+
+Theorem plain_burn_coins_exact s m cs s' : redirected m = false -> haqq_burn_coins s m cs = Some s' ->
+  (forall d', zget (sup (bk s')) d' = zget (sup (bk s)) d' - amount_of cs d') /\
+  pool s' = pool s /\ outst s' = outst s.
+Proof.
+  unfold haqq_burn_coins. intros -> H'. destruct (valid_coins cs); [|discriminate]. cbn [negb] in H'.
+  destruct (s_burn_coins_spec _ _ _ _ H') as (Hp & Ho & Hs & _). done.
+Qed.
+
 (** an ordinary burn elsewhere reduces the supply by exactly x *)
 Theorem plain_burn_exact s m d x s' : redirected m = false -> haqq_burn s m d x = Some s' ->
   (forall d', zget (sup (bk s')) d' = zget (sup (bk s)) d' - (if decide (d = d') then x else 0)) /\
@@ -228,7 +384,7 @@ Qed.
 Definition debits_distr (o : hop) : bool :=
   match o with
   | HSend a _ _ _ | HDaoFund a _ _ | HRedeem a _ _ _ _ | HConvertCoin a _ _ _ | HSetBalance a _ => N.eqb a M_DISTR
-  | HBurn m _ _ => N.eqb m M_DISTR
+  | HBurn m _ _ | HBurnCoins m _ => N.eqb m M_DISTR
   | HLiquidate a c _ _ => N.eqb a M_DISTR || N.eqb c M_DISTR
   | HMint _ _ _ | HCoinomicsMint _ | HConvertERC20 _ _ _ _ => false
   end.
@@ -272,6 +428,17 @@ Proof.
   - unfold haqq_burn in H'. rewrite Hr in H'. eapply s_burn_keeps; eauto.
 Qed.
 
+Lemma haqq_burn_coins_keeps s m cs s' : m <> M_DISTR -> haqq_burn_coins s m cs = Some s' -> Keeps s s'.
+Proof.
+  intros Hm H'. destruct (redirected m) eqn:Hr.
+  - destruct (redirect_coins_exact _ _ _ _ Hr Hm H') as (_ & Hp & Ho & Hb & _). intros d'.
+    rewrite Hp, Ho, Hb. rewrite (decide_False (P := m = M_DISTR)) by done.
+    rewrite (decide_True (P := M_DISTR = M_DISTR)) by done. lia.
+  - unfold haqq_burn_coins in H'. rewrite Hr in H'. destruct (valid_coins cs); [|discriminate]. cbn [negb] in H'.
+    destruct (s_burn_coins_spec _ _ _ _ H') as (Hp & Ho & _ & Hb). intros d'.
+    rewrite Hp, Ho, Hb. rewrite (decide_False (P := m = M_DISTR)) by done. lia.
+Qed.
+
 Lemma neqb_ne a : N.eqb a M_DISTR = false -> a <> M_DISTR.
 Proof. intros H' ->. rewrite N.eqb_refl in H'. discriminate. Qed.
 
@@ -295,6 +462,7 @@ Proof.
   - apply neqb_ne in Hd. keeps_chain.
   - keeps_chain.
   - apply neqb_ne in Hd. eapply haqq_burn_keeps; eauto.
+  - apply neqb_ne in Hd. eapply haqq_burn_coins_keeps; eauto.
   - keeps_chain.
   - apply neqb_ne in Hd. keeps_chain.
   - apply orb_false_elim in Hd as [Ha Hc]. apply neqb_ne in Ha, Hc. keeps_chain.
@@ -334,7 +502,10 @@ Definition demo_ops : list hop :=
     HCoinomicsMint 50; HSend 1 M_BONDED BASE 300; HSend 1 M_GOV BASE 40;
     HBurn M_BONDED BASE 30; HBurn M_GOV BASE 40; HDaoFund 1 BASE 10;
     HLiquidate 1 2 5 100; HRedeem 2 3 5 60 60; HConvertCoin 1 BASE 7 true; HConvertERC20 1 BASE 7 true;
-    HConvertERC20 1 9 5 false; HConvertCoin 1 9 5 false; HSetBalance 1 600; HSetBalance 1 100; HBurn M_LV 5 0 ]%N.
+    HConvertERC20 1 9 5 false; HConvertCoin 1 9 5 false; HSetBalance 1 600; HSetBalance 1 100; HBurn M_LV 5 0;
+    (* a governance deposit in two denominations, burnt = redirected as a whole *)
+    HMint M_COINOMICS 7 20; HSend M_COINOMICS 2 7 20; HSend 2 M_GOV 7 20; HSend 1 M_GOV BASE 15;
+    HBurnCoins M_GOV [(BASE, 15%Z); (7, 12%Z)]; HMint M_LV 7 3; HBurnCoins M_LV [(7, 3%Z)] ]%N.
 
 Lemma demo_all_succeed :
   (fix go (s : st) (l : list hop) : bool :=
@@ -342,8 +513,18 @@ Lemma demo_all_succeed :
 Proof. vm_compute. reflexivity. Qed.
 
 Lemma demo_final :
-  observe [0; 5; 9]%N (run demo_ops st0) =
-  mkobs [(1%N, 0%N, 100); (3%N, 0%N, 60); (M_FEECOLL, 0%N, 50); (M_DISTR, 0%N, 70); (M_BONDED, 0%N, 270);
-         (M_DAO, 0%N, 10); (M_LV, 0%N, 40); (M_ERC20, 5%N, 40)]
-        [(0%N, 600); (5%N, 40)] [(0%N, 70)].
+  observe [0; 5; 7; 9]%N (run demo_ops st0) =
+  mkobs [(1%N, 0%N, 85); (3%N, 0%N, 60); (M_FEECOLL, 0%N, 50); (M_DISTR, 0%N, 85); (M_DISTR, 7%N, 12); (M_BONDED, 0%N, 270);
+         (M_GOV, 7%N, 8); (M_DAO, 0%N, 10); (M_LV, 0%N, 40); (M_ERC20, 5%N, 40)]
+        [(0%N, 600); (5%N, 40); (7%N, 20)] [(0%N, 85); (7%N, 12)].
 Proof. vm_compute. reflexivity. Qed.
+
+(** the whole list or nothing: a deposit of which one denomination is not covered, a denomination
+    written twice, a zero amount: nothing moves *)
+Lemma demo_burn_coins_all_or_nothing :
+  let s := run demo_ops st0 in
+  let rejected (cs : coin_list) := match haqq_burn_coins s M_GOV cs with None => true | Some _ => false end in
+  rejected [(7%N, 8); (BASE, 1)] = true /\ rejected [(7%N, 2); (7%N, 2)] = true /\ rejected [(7%N, 0)] = true /\
+  option_map (fun s' => (zget (pool s') 7%N, balance (bk s') M_DISTR 7%N, balance (bk s') M_GOV 7%N))
+             (haqq_burn_coins s M_GOV [(7%N, 8)]) = Some (20, 20, 0).
+Proof. vm_compute. repeat split; reflexivity. Qed.
